@@ -77,7 +77,8 @@ func (c *MustacheTokenizer) ReadNextToken() *tokenizers.Token {
 	c.special = false
 	token := c.AbstractTokenizer.ReadNextToken()
 	// Switch to quote when '{{' or '{{{' symbols found
-	if token != nil && (token.Value() == "}}" || token.Value() == "}}}") {
+	// (only the closing symbol itself: a decoded string literal can have the same text)
+	if token != nil && token.Type() == tokenizers.Symbol && (token.Value() == "}}" || token.Value() == "}}}") {
 		c.special = true
 	}
 	return token
